@@ -90,7 +90,7 @@ pub struct Gen<'a> {
 impl<'a> Gen<'a> {
     fn special(&mut self) -> u64 {
         let nd = NO_DATA_BITS;
-        let pool: [(u64, &str); 18] = [
+        let pool: [(u64, &str); 22] = [
             (bits(0.0), "f.zero"),
             (bits(-0.0), "f.negzero"),
             (1, "f.subnormal"),
@@ -107,6 +107,10 @@ impl<'a> Gen<'a> {
             (next_up(nd), "f.nodata_up"),
             (next_down(nd), "f.nodata_down"),
             (bits(-1e38), "f.near_nodata"),
+            (bits(-5e38), "f.between_nodata_and_1e38"),
+            (bits(-2e38), "f.between_nodata_and_1e38"),
+            (bits(-2e39), "f.below_nodata"),
+            (bits(-1.5e300), "f.below_nodata"),
             (bits(f64::MIN_POSITIVE), "f.minpos"),
             (bits(1e300), "f.huge"),
         ];
@@ -188,6 +192,14 @@ impl<'a> Gen<'a> {
             if last != ps[0] {
                 ps.push(last);
                 self.stats.hit("ring.closed-in-xy-only");
+            }
+        } else if self.rng.chance(1, 8) && !ps.is_empty() {
+            // back to within one unit in the last place of the first vertex: NOT closed
+            let mut last = ps[0];
+            last.x = next_up(last.x);
+            if !is_nan(last.x) && last != ps[0] {
+                ps.push(last);
+                self.stats.hit("ring.almost-closed");
             }
         } else {
             self.stats.hit("ring.open");
@@ -281,6 +293,15 @@ impl<'a> Gen<'a> {
                 }
             }
         };
+        let c = if c.dim().has_m() && fl != Flavor::Exact && self.rng.chance(1, 10) {
+            self.stats.hit("m.all-nodata");
+            map_points(c, &|mut p| {
+                p.m = NO_DATA_BITS;
+                p
+            })
+        } else {
+            c
+        };
         self.stats.hit(&format!("type.{}", c.type_name()));
         self.stats.add("parts", c.parts().len() as u64);
         self.stats.add("points", c.parts().iter().map(|p| p.len() as u64).sum());
@@ -308,6 +329,21 @@ impl<'a> Gen<'a> {
                 self.ctor(family, d, fl, allow_nan)
             })
             .collect()
+    }
+}
+
+/// the same constructor call with every vertex mapped
+pub fn map_points(c: Ctor, f: &dyn Fn(P) -> P) -> Ctor {
+    let mp = |v: Vec<P>| -> Vec<P> { v.into_iter().map(f).collect() };
+    match c {
+        Ctor::Point(d, p) => Ctor::Point(d, f(p)),
+        Ctor::Multipoint(d, v) => Ctor::Multipoint(d, mp(v)),
+        Ctor::Polyline(d, v) => Ctor::Polyline(d, mp(v)),
+        Ctor::PolylineParts(d, pp) => Ctor::PolylineParts(d, pp.into_iter().map(mp).collect()),
+        Ctor::Polygon(d, r, v) => Ctor::Polygon(d, r, mp(v)),
+        Ctor::PolygonRings(d, rr) => Ctor::PolygonRings(d, rr.into_iter().map(|(r, v)| (r, mp(v))).collect()),
+        Ctor::Multipatch(k, v) => Ctor::Multipatch(k, mp(v)),
+        Ctor::MultipatchParts(pp) => Ctor::MultipatchParts(pp.into_iter().map(|(k, v)| (k, mp(v))).collect()),
     }
 }
 
